@@ -8,6 +8,7 @@ import (
 	"fmt"
 	"net"
 	"runtime"
+	"strings"
 	"sync"
 	"sync/atomic"
 	"testing"
@@ -162,7 +163,7 @@ func TestVerifC16Tunnel(t *testing.T) {
 	run.Floor("overlap_runs_copy_finished", 100)
 	scope := []string{"tunnox-core/internal/client/tunnel", "tunnox-core/internal/utils/iocopy"}
 
-	for done := 0; done < n && run.Violations() < 20; done += batch {
+	for done := 0; done < n && run.Violations() < 20 && run.Counter("leak_violations") < 3; done += batch {
 		snap := vk.SnapshotGoroutines()
 		trials := make([]*c16Trial, 0, batch)
 		var cleanup []func()
@@ -265,7 +266,8 @@ func TestVerifC16Tunnel(t *testing.T) {
 			if len(sum) > 0 {
 				top = sum[0]
 			}
-			run.Violation("C16:tunnel|goroutine-left|"+top, map[string]any{"batch_start": done, "leaked": len(leaked), "frames": sum, "stack": leaked[0].Stack})
+			run.Violation("C16:tunnel|goroutine-left|"+c16LeakFn(top), map[string]any{"batch_start": done, "leaked": len(leaked), "frames": sum, "stack": leaked[0].Stack})
+			run.Count("leak_violations", 1) // after 3 the test stops: every further trial would wait the full poll interval
 		}
 		run.Count("leak_checks", 1)
 		// judge the batch: now nothing of it is running any more
@@ -302,6 +304,7 @@ func TestVerifC16Tunnel(t *testing.T) {
 		// post-close calls (e.g. Start on a closed tunnel) must not have started anything either
 		if l := snap.Leaked(scope, nil, time.Second); len(l) > 0 {
 			run.Violation("C16:tunnel|goroutine-left-after-post-close-calls", map[string]any{"batch_start": done, "frames": vk.FrameSummary(l), "stack": l[0].Stack})
+			run.Count("leak_violations", 1) // after 3 the test stops: every further trial would wait the full poll interval
 		}
 	}
 }
@@ -329,4 +332,12 @@ func c16JudgeTunnel(run *vk.Run, tr *c16Trial, when string) {
 	if tr.mgr.GetTunnel(tr.tun.id) != nil {
 		run.Violation("C16:tunnel|still-registered-after-close", map[string]any{"case": tr.desc, "when": when})
 	}
+}
+
+// c16LeakFn strips the (varying) goroutine state from a vk.FrameSummary entry.
+func c16LeakFn(s string) string {
+	if i := strings.Index(s, "tunnox-core/"); i >= 0 {
+		return s[i:]
+	}
+	return s
 }
